@@ -1028,6 +1028,11 @@ def variant_custom(rng, custom):
 
 
 CUSTOM_MAPS += [
+    # one alias name spelled twice (with and without a CSS escape, or in two letter cases): whatever the library does
+    # about the clash, it has to do the same for every ordering of the map (equal maps are one cache key)
+    {':--ab': 'p', ':--a\\62': 'div'},
+    {':--\\69tem': 'ul', ':--item': 'li'},
+    {':--AB': 'p', ':--ab': 'div'},
     {':--item': 'li:--marked', ':--marked': '.a'},
     {':--item': 'li:--marked', ':--marked': '.b'},
     {':--x': ':--y :--z', ':--y': 'div', ':--z': 'p'},
